@@ -236,8 +236,8 @@ type c02Job struct {
 	file     string // file name handed to the parser (remote refs)
 	dir      string
 	pairs    []string // hostile stream: the position=name choices made
-	twin     []byte // K13: the same document with control characters removed from names
-	collide  string // K12: "position=name" of the collision stream
+	twin     []byte   // K13: the same document with control characters removed from names
+	collide  string   // K12: "position=name" of the collision stream
 	// results
 	outcome string // ok rejected unparsable panic timeout
 	msg     string
